@@ -26,7 +26,9 @@ type fileCase struct {
 	// not part of the file; "section" = an io.SectionReader positioned after
 	// an already consumed header; "buffer" = a bytes.Buffer (Len(), no Seek);
 	// "opaque" = a reader with no other method; "file" = an *os.File positioned
-	// after a consumed header
+	// after a consumed header; "dataerr" = a reader that returns its last bytes
+	// together with io.EOF; "onebyte" = the same one byte per Read; "zerofirst" =
+	// a reader whose first Read returns (0, nil)
 	Source string `json:"source,omitempty"`
 }
 
@@ -37,7 +39,41 @@ func (c fileCase) String() string {
 	return fmt.Sprintf("%s w=%d %s L=%d %s", c.Writer, c.W, c.Chunker, c.L, c.Pattern)
 }
 
-var fileSources = []string{"positioned", "section", "buffer", "opaque", "file"}
+var fileSources = []string{"positioned", "section", "buffer", "opaque", "dataerr", "zerofirst", "onebyte", "file"}
+
+// dataErrReader returns the final bytes together with io.EOF (as archive/tar
+// entries and known-length HTTP bodies do): legal for an io.Reader.
+type dataErrReader struct {
+	data []byte
+	step int // bytes per Read; 0 = everything at once
+}
+
+func (d *dataErrReader) Read(p []byte) (int, error) {
+	n := len(p)
+	if d.step > 0 && n > d.step {
+		n = d.step
+	}
+	n = copy(p[:n], d.data)
+	d.data = d.data[n:]
+	if len(d.data) == 0 {
+		return n, io.EOF
+	}
+	return n, nil
+}
+
+// zeroFirstReader answers its first Read with (0, nil) (discouraged, legal).
+type zeroFirstReader struct {
+	r     io.Reader
+	asked bool
+}
+
+func (z *zeroFirstReader) Read(p []byte) (int, error) {
+	if !z.asked {
+		z.asked = true
+		return 0, nil
+	}
+	return z.r.Read(p)
+}
 
 type opaqueReader struct{ r io.Reader }
 
@@ -61,6 +97,12 @@ func (c fileCase) source(content []byte) (src io.Reader, cleanup func()) {
 		return bytes.NewBuffer(append([]byte{}, content...)), cleanup
 	case "opaque":
 		return opaqueReader{bytes.NewReader(content)}, cleanup
+	case "dataerr":
+		return &dataErrReader{data: append([]byte{}, content...)}, cleanup
+	case "onebyte":
+		return &dataErrReader{data: append([]byte{}, content...), step: 1}, cleanup
+	case "zerofirst":
+		return &zeroFirstReader{r: bytes.NewReader(content)}, cleanup
 	case "file":
 		f, err := os.CreateTemp(scratchDir(), "verif-src-*")
 		if err != nil {
